@@ -77,6 +77,36 @@ def shutdown_and_idle(root, tag):
         sc.kill(); shutil.rmtree(d, ignore_errors=True)
     return lines, fails
 
+def stop_then_successor(root, tag, uds):
+    """a stop request with a compile in flight, a new client during the drain window (it may have to start a successor), the old server
+    exits, then a further client: every client gets its object, and exactly one server serves the address afterwards"""
+    fails = []; tr = 'unix' if uds else 'tcp'
+    d = os.path.join(root, 'succ' + tr); shutil.rmtree(d, ignore_errors=True); w = os.path.join(d, 'w'); os.makedirs(w)
+    cc = os.path.join(d, 'gcc'); open(cc, 'w').write('#!/bin/sh\ncase " $* " in *" -E "*|*" -v "*|*" --version "*) ;; *slow.c*) sleep 1.5 ;; esac\nexec /usr/bin/gcc "$@"\n'); os.chmod(cc, 0o755)
+    for n in ('slow', 'b', 'c'): open(f'{w}/{n}.c', 'w').write(f'int {n}(void){{return {len(n)};}}\n')
+    sc = Sc(os.path.join(d, 'sc'), tag + 'succ' + tr, uds=uds); sc.start()
+    try:
+        s1 = sc.server_pids()
+        pa = subprocess.Popen([sc.bin, cc, '-c', 'slow.c', '-o', 'slow.o'], cwd=w, env=sc.env, stdout=subprocess.PIPE, stderr=subprocess.PIPE)
+        time.sleep(0.6); sc.run(['--stop-server'])
+        rb = sc.compile([cc, '-c', 'b.c', '-o', 'b.o'], w, timeout=120)          # during the drain window
+        pa.communicate(timeout=60)
+        end = time.time() + 15
+        while time.time() < end and any(p in sc.server_pids() for p in s1): time.sleep(0.1)
+        rc_ = sc.compile([cc, '-c', 'c.c', '-o', 'c.o'], w, timeout=120)         # after the old server is gone
+        time.sleep(0.3); alive = sc.server_pids(); st = sc.stats() or {}
+        ok = []
+        for n, r in (('slow', pa), ('b', rb), ('c', rc_)):
+            subprocess.run(['/usr/bin/gcc', '-c', f'{n}.c', '-o', f'{n}.direct.o'], cwd=w)
+            ok.append(r.returncode == 0 and file_state(f'{w}/{n}.o') is not None and file_state(f'{w}/{n}.o')[0] == file_state(f'{w}/{n}.direct.o')[0])
+        line = f'{tr}: stop with a compile in flight, client during the drain, client after the old server left: objects correct={ok} old server gone={not any(p in alive for p in s1)} servers alive afterwards={len(alive)} reachable server saw {st.get("compile_requests")} request(s)'
+        if not all(ok): fails.append({'kind': 'request_lost_around_stop', 'detail': line, 'ops': [line]})
+        if len(alive) != 1: fails.append({'kind': 'extra_server_after_stop_' + tr, 'detail': line, 'ops': [line]})
+        elif not st.get('compile_requests'): fails.append({'kind': 'surviving_server_unreachable', 'detail': line, 'ops': [line]})
+    finally:
+        sc.kill(); shutil.rmtree(d, ignore_errors=True)
+    return line, fails
+
 def run(root, tag, sizes=(2, 8), uds_sizes=(4,)):
     fails = []; samples = []
     for n in sizes:
@@ -84,5 +114,7 @@ def run(root, tag, sizes=(2, 8), uds_sizes=(4,)):
     for n in uds_sizes:
         l, f = cold_start(root, tag, n, True); samples.append(l); fails += f
     l, f = unix_witness(root, tag); samples.append(l); fails += f
+    for uds in (False, True):
+        l, f = stop_then_successor(root, tag, uds); samples.append(l); fails += f
     ls, f = shutdown_and_idle(root, tag); samples += ls; fails += f
     return {'scenarios': len(samples), 'clients_started': sum(sizes) + sum(uds_sizes), 'fails': fails, 'samples': samples}
